@@ -246,3 +246,6 @@ def replay_imports(rp):
 
 
 REPLAY = {"imports": replay_imports, "src": c13.replay_src}
+
+from suites import thorough as _th
+GROUPS["thorough:import-programs"] = _th.bounded_from_replay("bounded/vendored-package-imports", replay_imports)
